@@ -186,7 +186,7 @@ Definition frac_opt (s : string) : option (Z * string) :=
   end.
 
 Fixpoint cut_spaces (s : string) : string :=
-  match s with String " " r => cut_spaces r | _ => s end.
+  match s with String a r => if Ascii.eqb a " " then cut_spaces r else s | EmptyString => s end.
 Fixpoint cut_space_elems (es : list elem) : list elem :=
   match es with ELit " " :: r => cut_space_elems r | _ => es end.
 
